@@ -28,6 +28,7 @@ import (
 
 	"github.com/innovationb1ue/RedisGO/resp"
 
+	"rgverif/internal/cluster"
 	"rgverif/internal/common"
 	"rgverif/internal/evidence"
 	"rgverif/internal/findings"
@@ -496,15 +497,42 @@ func worker(o *common.Opts) {
 func unhex(s string) []byte { b, _ := hex.DecodeString(s); return b }
 
 // tcpVehicle observes decoding end to end on the real binary.
-func tcpVehicle(o *common.Opts, n int, report func(witness)) (streams, cmds int, note string) {
+// With asCluster the target is a one-node cluster: the same streams go through HandleCluster (its own connection
+// loop), the command filter, the proposal round trip and the apply loop.
+func tcpVehicle(o *common.Opts, n int, asCluster bool, report0 func(witness)) (streams, cmds int, note string) {
 	if procs.Bin(false) == "" {
 		return 0, 0, "server binary not available"
 	}
-	r := rand.New(rand.NewSource(o.Seed + 5))
+	report := report0
+	seedOff := int64(5)
+	if asCluster {
+		seedOff = 6
+		report = func(w witness) {
+			w.Kind = "cluster"
+			w.Detail = "one-node cluster: " + w.Detail
+			w.Sig = "cluster|" + strings.TrimPrefix(w.Sig, "tcp|")
+			report0(w)
+		}
+	}
+	r := rand.New(rand.NewSource(o.Seed + seedOff))
 	var srv *procs.Server
 	start := func() error {
 		var err error
 		for try := 0; try < 5; try++ {
+			if asCluster {
+				dir := filepath.Join(o.Work, fmt.Sprintf("cl-%d", r.Int63()))
+				var cl *cluster.Cluster
+				if cl, err = cluster.New(dir, 1, false, nil); err != nil {
+					continue
+				}
+				if err = cl.StartAll(); err == nil && cl.WaitAllWritable(90*time.Second) {
+					srv = cl.Nodes[0].Srv
+					return nil
+				}
+				cl.Stop()
+				err = fmt.Errorf("one-node cluster did not become writable")
+				continue
+			}
 			srv, err = procs.Start(procs.Opts{Dir: filepath.Join(o.Work, fmt.Sprintf("srv-%d", r.Int63())), Port: procs.FreePorts(1)[0], ShardNum: 8, Databases: 1})
 			if err == nil {
 				return nil
@@ -744,11 +772,19 @@ func main() {
 	if len(pending) > 0 {
 		inconclusive = "more than 30 crashing streams in one batch"
 	}
-	tcpStreams, tcpCmds, tcpNote := tcpVehicle(o, o.Pick(500, 10000), func(w witness) {
+	tcpStreams, tcpCmds, tcpNote := tcpVehicle(o, o.Pick(500, 10000), false, func(w witness) {
 		if _, dup := bySig[w.Sig]; !dup {
 			bySig[w.Sig] = w
 		}
 	})
+	clStreams, clCmds, clNote := tcpVehicle(o, o.Pick(250, 4000), true, func(w witness) {
+		if _, dup := bySig[w.Sig]; !dup {
+			bySig[w.Sig] = w
+		}
+	})
+	if clNote != "" {
+		tcpNote += " cluster vehicle: " + clNote
+	}
 	sigs := make([]string, 0, len(bySig))
 	for s := range bySig {
 		sigs = append(sigs, s)
@@ -784,24 +820,26 @@ func main() {
 	}
 	ev := &evidence.Evidence{PropertyID: prop, Tier: o.Tier, Seed: o.Seed, Level: "exploration", WallS: o.Elapsed(), Violations: violations,
 		Coverage: map[string]any{
-			"evaluations":         agg.Parses + tcpStreams,
+			"evaluations":         agg.Parses + tcpStreams + clStreams,
 			"distinct_nontrivial": agg.PureOK + agg.ViolOK,
 			"rule": "streams = seeded pipelines of 1-8 commands with binary arguments (CR, LF, CRLF, RESP-looking payloads, NUL, 0xFF, 4 KiB, 70 KiB) + byte-level mutations of them followed by a canary command + all streams of length <= N over {* $ CR LF 0 1 - a}; " +
 				"each stream is parsed by the real resp.ParseStream under every cut plan (all partitions for streams <= 12 bytes; every single cut, cut pairs around structural bytes, 1 byte per read, 4095/4096/4097 alignment, random partitions otherwise); " +
 				"non-trivial = parses with a verdict: (stream, plan) pairs whose delivered commands were compared with the strict recogniser (classes A and B); class C only has to terminate without crashing",
-			"samples":                  []any{"*2\\r\\n$4\\r\\nPING\\r\\n$2\\r\\n\\r\\n\\r\\n cut at every offset", "*1\\r\\n$4\\r\\nPINX\\n + canary SET", "\\n", "$9223372036854775805\\r\\n"},
-			"streams":                  agg.Streams,
-			"parses":                   agg.Parses,
-			"parses_wellformed_judged": agg.PureOK,
-			"parses_violation_judged":  agg.ViolOK,
-			"parses_no_verdict":        agg.NoVerdict,
-			"stream_classes":           agg.Classes,
-			"tcp_streams":              tcpStreams,
-			"tcp_commands_round_trip":  tcpCmds,
-			"tcp_note":                 tcpNote,
-			"signatures":               len(sigs),
-			"known_finding_hits":       knownHits,
-			"violation_samples":        vs,
+			"samples":                     []any{"*2\\r\\n$4\\r\\nPING\\r\\n$2\\r\\n\\r\\n\\r\\n cut at every offset", "*1\\r\\n$4\\r\\nPINX\\n + canary SET", "\\n", "$9223372036854775805\\r\\n"},
+			"streams":                     agg.Streams,
+			"parses":                      agg.Parses,
+			"parses_wellformed_judged":    agg.PureOK,
+			"parses_violation_judged":     agg.ViolOK,
+			"parses_no_verdict":           agg.NoVerdict,
+			"stream_classes":              agg.Classes,
+			"tcp_streams":                 tcpStreams,
+			"cluster_streams":             clStreams,
+			"cluster_commands_round_trip": clCmds,
+			"tcp_commands_round_trip":     tcpCmds,
+			"tcp_note":                    tcpNote,
+			"signatures":                  len(sigs),
+			"known_finding_hits":          knownHits,
+			"violation_samples":           vs,
 		},
 		Assumptions: []string{"well-formed top-level values that are not arrays of bulk strings (inline text, +x, :1, lone bulk, *0, *-1, nested arrays) are an open corner: only crash-freedom and termination are demanded for streams containing them",
 			"length fields written as +N, -0 or with leading zeros are unspecified"}}
@@ -809,8 +847,8 @@ func main() {
 		ev.Coverage["inconclusive"] = inconclusive
 	}
 	_ = evidence.Write(o.Evidence, ev)
-	fmt.Printf("%s %s seed=%d: %d streams, %d parses (%d+%d judged), %d TCP streams / %d commands, %d signatures (%d unmatched), %.1fs %s\n",
-		prop, o.Tier, o.Seed, agg.Streams, agg.Parses, agg.PureOK, agg.ViolOK, tcpStreams, tcpCmds, len(sigs), violations, o.Elapsed(), tcpNote)
+	fmt.Printf("%s %s seed=%d: %d streams, %d parses (%d+%d judged), %d TCP streams / %d commands, %d streams / %d commands through a one-node cluster, %d signatures (%d unmatched), %.1fs %s\n",
+		prop, o.Tier, o.Seed, agg.Streams, agg.Parses, agg.PureOK, agg.ViolOK, tcpStreams, tcpCmds, clStreams, clCmds, len(sigs), violations, o.Elapsed(), tcpNote)
 	if violations > 0 {
 		o.Cleanup()
 		os.Exit(common.ExitViolation)
